@@ -28,6 +28,47 @@ def run_all(inc):
     return bad
 
 
+def catch_up(cur, nxt, diff):
+    """A refactoring commit written before finding F13 was repaired can collide with the repair (border_node::delete_of).
+    Take the repair out (benign/_catchup_F13.diff reversed), apply the commit, and put the repair's three lines back at
+    their anchors (the comment lines next to them).  False when that is not possible."""
+    shutil.rmtree(nxt)
+    shutil.copytree(cur, nxt)
+    cu = os.path.join(HERE, 'benign', '_catchup_F13.diff')
+    if subprocess.run(['patch', '-p1', '-s', '-R', '-i', cu], cwd=nxt, stdout=subprocess.PIPE,
+                      stderr=subprocess.STDOUT).returncode != 0:
+        return False
+    if subprocess.run(['patch', '-p1', '-s', '-i', diff], cwd=nxt, stdout=subprocess.PIPE,
+                      stderr=subprocess.STDOUT).returncode != 0:
+        return False
+    fn = os.path.join(nxt, 'include', 'border_node.h')
+    lines = open(fn).read().split('\n')
+    out = []
+    done = {'hook': False, 'fix': False}
+    for i, l in enumerate(lines):
+        if 'lock order is next to prev and lower to higher' in l and not done['hook']:
+            j = len(out) - 1
+            while j >= 0 and '/**' not in out[j]:
+                j -= 1
+            if j >= 0:
+                ind = out[j][:len(out[j]) - len(out[j].lstrip())]
+                out.insert(j, ind + 'YAKUSHIMA_VERIF_POINT(8);')
+                done['hook'] = True
+        out.append(l)
+        if '// remain empty deleted root node.' in l and not done['fix']:
+            ind = l[:len(l) - len(l.lstrip())]
+            out.append(ind + 'set_next(nullptr);')
+            out.append(ind + 'set_prev(nullptr);')
+            done['fix'] = True
+    if not all(done.values()):
+        return False
+    open(fn, 'w').write('\n'.join(out))
+    for r_ in ('.orig', '.rej'):
+        if os.path.exists(fn + r_):
+            os.unlink(fn + r_)
+    return True
+
+
 def main():
     args = [a for a in sys.argv[1:] if not a.startswith('--')]
     final_only = '--final-only' in sys.argv
@@ -46,6 +87,8 @@ def main():
                 shutil.copytree(cur, nxt)
                 r = subprocess.run(['patch', '-p1', '-s', '-i', os.path.join(d, df)], cwd=nxt,
                                    stdout=subprocess.PIPE, stderr=subprocess.STDOUT, text=True)
+                if r.returncode != 0 and catch_up(cur, nxt, os.path.join(d, df)):
+                    r = subprocess.CompletedProcess([], 0)
                 if r.returncode != 0:
                     print('%s/%s does not apply to the current /repo: set ends here' % (s, df))
                     break
